@@ -113,7 +113,7 @@ def decide(spec, tier, seed):
             notes.append("source_tie_not_established: the theorems `translated source = model` no longer check for %s; the "
                          "correspondence check is the only tie for that code on this run, so it is run at the thorough size "
                          "(for the calendars: the whole day-number domain of the property)" % ", ".join(sorted(ties["not_established"])))
-            stream_tier = "thorough"
+            stream_tier = "wide" if getattr(spec, "supports_wide", False) else "thorough"
         log("[%s] source ties: %d modules established, %d not" % (pid, len(ties["established"]), len(ties["not_established"])))
 
     # correspondence + direct evaluation of the property on the real code
